@@ -53,6 +53,9 @@ var (
 	// ErrUnknownFormat is returned when an attestation file cannot be decoded from any of the
 	// supported forms.
 	ErrUnknownFormat = errors.New("unknown attestation format")
+	// ErrNoMeasurement is returned when no quote with a full-length measurement is available to
+	// derive the endorsement's object name from, so there is nothing to fetch.
+	ErrNoMeasurement = errors.New("no full-length measurement to derive the endorsement object name from")
 	// ErrEventLogPathEmpty is returned when the event log path in Options is empty.
 	ErrEventLogPathEmpty = errors.New("event log path is empty")
 )
@@ -154,16 +157,25 @@ func (opts *Options) fromEventLog() ([]byte, error) {
 	return nil, fmt.Errorf("matching sp800155 firmware manufacturer %v not found", opts.FirmwareManufacturer)
 }
 
+// The object name is only derived from a full-length measurement: anything else (e.g. the
+// placeholder report of a bare certificate table) names no endorsement.
 func fromSevSnpAttestationProto(at *spb.Attestation) ([]byte, string, error) {
-	if out, err := extractsev.FromAttestation(at); err == nil {
-		return out, "", nil
+	var objectName string
+	if meas := at.GetReport().GetMeasurement(); len(meas) == abi.MeasurementSize {
+		objectName = extractsev.GCETcbObjectName(sev.GCEUefiFamilyID, meas)
 	}
-	meas := at.GetReport().GetMeasurement()
-	return nil, extractsev.GCETcbObjectName(sev.GCEUefiFamilyID, meas), nil
+	if out, err := extractsev.FromAttestation(at); err == nil {
+		return out, objectName, nil
+	}
+	return nil, objectName, nil
 }
 
 func fromTdxAttestationProto(at *tpb.QuoteV4) string {
-	return extracttdx.GCETcbObjectName(at.GetTdQuoteBody().GetMrTd())
+	mrtd := at.GetTdQuoteBody().GetMrTd()
+	if len(mrtd) != tabi.MrTdSize {
+		return ""
+	}
+	return extracttdx.GCETcbObjectName(mrtd)
 }
 
 // Attestation will try to deserialize a given attestation in any of the supported formats and
@@ -286,9 +298,11 @@ func Endorsement(opts *Options) (out []byte, err error) {
 		}
 	}
 
-	// Then try the internet.
+	// Then try the internet, which needs the measurement-derived object name.
 	if opts.Getter == nil {
 		internetErr = ErrGetterNil
+	} else if objectName == "" {
+		internetErr = ErrNoMeasurement
 	} else {
 		endorsement, internetErr = opts.Getter.Get(verify.GCETcbURL(objectName))
 		if internetErr == nil {
